@@ -569,6 +569,15 @@ fn stream_outfile(rep: &mut Report, rng: &mut Rng) {
         std::fs::write(case_dir.join("in/a.info"), "TN:\nSF:src/a.c\nDA:1,1\nend_of_record\nSF:../../up.c\nDA:1,1\nend_of_record\n").unwrap();
         let (ty, fixed) = *rng.pick(&[("lcov", "lcov"), ("covdir", "covdir"), ("files", "files"), ("markdown", "markdown.md"), ("cobertura", "cobertura.xml"), ("ade", "activedata"), ("coveralls+", "coveralls+")]);
         let (out_rel, mode) = *rng.pick(&[("o0/some/nested/new/dir/file", "missing_parent"), ("o0/existing", "is_dir"), ("o0/existing/report.out", "file"), ("o0/existing/../existing/r2", "dotdot_file")]);
+        // the user's own files named after the output (C19-5): beside a file output, and inside + beside a directory output
+        match mode {
+            "file" | "dotdot_file" => super::plant_beside_output(&case_dir.join("o0/existing"), out_rel.rsplit('/').next().unwrap()),
+            "is_dir" => {
+                super::plant_beside_output(&case_dir.join("o0/existing"), fixed);
+                super::plant_beside_output(&case_dir.join("o0"), "existing");
+            }
+            _ => {}
+        }
         let before = super::snapshot(&case_dir);
         std::env::set_var("TMPDIR", case_abs.join("tmp"));
         let mut extra: Vec<String> = vec!["-t".into(), ty.into(), "-o".into(), format!("../{}", out_rel)];
